@@ -214,12 +214,26 @@ func ruleRRCManager(c *Ctx, r *Report) {
 		fn := s.Fn
 		key := short(fn)
 		r.Sites++
+		// with a challenge outstanding the deadline moves only where the challenge itself changes
+		// state (issued, cancelled): the re-arming call is out of reach while the pending flag
+		// reads true, or a store to the flag comes first on every way to it
+		pendingReach := func() bool {
+			w := (&Walk{Fn: fn, Assume: assumeAll(atomAssume{mLoad(tRRCPath, "challengePending"), vBool(true)})}).FromEntry()
+			if !w.Reached[s.Call] && !w.overflow {
+				return false
+			}
+			for _, st := range c.StoresTo(tRRCPath, "challengePending") {
+				if st.Fn == fn && instrDominates(st.Instr, s.Call) {
+					return false
+				}
+			}
+			return true
+		}
 		switch {
 		case strings.HasSuffix(key, ").Start"), strings.HasSuffix(key, ").Cancel"):
-			r.OKTrivial(rule2, key, c.ipos(s.Call), "arms / re-arms the deadline when a challenge is issued or cancelled")
+			r.Check(!pendingReach(), rule2, key, c.ipos(s.Call), "arms / re-arms the deadline when a challenge is issued or cancelled, not while one is outstanding", "the deadline of an outstanding challenge is pushed back by an event that does not change the challenge (every further record from the candidate address, say): a response is accepted arbitrarily late")
 		case strings.HasSuffix(key, ").recordReceived"):
-			w := (&Walk{Fn: fn, Assume: assumeAll(atomAssume{mLoad(tRRCPath, "challengePending"), vBool(true)})}).FromEntry()
-			r.Check(!w.Reached[s.Call], rule2, key, c.ipos(s.Call), "received traffic does not extend the deadline of an outstanding challenge", "every record from a candidate address extends the deadline of its outstanding challenge: a response is accepted arbitrarily late")
+			r.Check(!pendingReach(), rule2, key, c.ipos(s.Call), "received traffic does not extend the deadline of an outstanding challenge", "every record from a candidate address extends the deadline of its outstanding challenge: a response is accepted arbitrarily late")
 		default:
 			r.Bad(rule2, key, c.ipos(s.Call), "the path deadline is re-armed from an unexpected place")
 		}
@@ -290,6 +304,48 @@ func ruleRRCManager(c *Ctx, r *Report) {
 			r.Check(sameValue(rs[0].Call.Args[1], wr[0].Call.Args[len(wr[0].Call.Args)-1]), rule3, short(fn)+":same-address", c.ipos(wr[0]), "reserved for the address written to", "the budget is reserved for a different address than the one written to")
 			ln, isLen := rs[0].Call.Args[3].(*ssa.Call)
 			r.Check(isLen && calleeName(&ln.Call) == "builtin:len" && sameValue(ln.Call.Args[0], wr[0].Call.Args[len(wr[0].Call.Args)-2]), rule3, short(fn)+":size", c.ipos(rs[0]), "reserved size = size of the datagram written", "the reserved size is not the length of the datagram that is written")
+		} else if host, hc, hrs := reserveHelper(fn); len(wr) == 1 && len(rs) == 0 && host != nil && len(hrs) == 1 {
+			// the record is protected and its size reserved in a helper that hands the datagram
+			// back: the write follows the helper's success, and the helper succeeds only after
+			// Reserve did
+			why := passesUnder(fn, nil, hc, errResult(hc), wr[0])
+			var as []atomAssume
+			for _, pp := range findCalls(host, nameIs("(*dtls.Conn).processPacket")) {
+				as = append(as, atomAssume{mValue(errResult(pp)), vNil(true)})
+			}
+			var okRet *ssa.Return
+			nOK := 0
+			for _, b := range host.Blocks {
+				ret, isRet := b.Instrs[len(b.Instrs)-1].(*ssa.Return)
+				if !isRet || b == host.Recover || len(ret.Results) != 2 {
+					continue
+				}
+				res := retResults(ret)
+				if !isNilConst(res[1]) {
+					continue
+				}
+				nOK++
+				okRet = ret
+				if w2 := passesUnder(host, as, hrs[0], hrs[0], ret); w2 != "" && why == "" {
+					why = "in " + short(host) + ": " + w2
+				}
+			}
+			if nOK == 0 && why == "" {
+				why = short(host) + " has no successful return"
+			}
+			r.Check(why == "", rule3, short(fn)+":reserve-before-write", c.ipos(wr[0]), "a datagram to a candidate address is written only after Reserve succeeded (in "+short(host)+")", "a datagram can be sent to an unvalidated address without passing the amplification reserve: "+why)
+			sameAddr := false
+			if p, isP := unspill(hrs[0].Call.Args[1]).(*ssa.Parameter); isP {
+				if i := paramIndex(p); i >= 0 && i < len(hc.Call.Args) {
+					sameAddr = sameValue(hc.Call.Args[i], wr[0].Call.Args[len(wr[0].Call.Args)-1])
+				}
+			}
+			r.Check(sameAddr, rule3, short(fn)+":same-address", c.ipos(wr[0]), "reserved for the address written to", "the budget is reserved for a different address than the one written to")
+			ln, isLen := hrs[0].Call.Args[3].(*ssa.Call)
+			okSize := isLen && calleeName(&ln.Call) == "builtin:len" && nOK == 1 && okRet != nil &&
+				sameValue(ln.Call.Args[0], retResults(okRet)[0]) &&
+				wr[0].Call.Args[len(wr[0].Call.Args)-2] == resultValue(hc, 0)
+			r.Check(okSize, rule3, short(fn)+":size", c.ipos(hrs[0]), "reserved size = size of the datagram written", "the reserved size is not the length of the datagram that is written")
 		} else {
 			r.Bad(rule3, short(fn), c.pos(fn.Pos()), "WriteRRC no longer has one Reserve and one WriteToContext")
 		}
@@ -318,6 +374,13 @@ func ruleRRCManager(c *Ctx, r *Report) {
 		for _, rs := range findCalls(s.Fn, nameHasSuffix("rrc.Manager).Reserve")) {
 			if sameValue(rs.Call.Args[1], call.Call.Args[len(call.Call.Args)-1]) {
 				reserved = true // ordering and size are checked by reserve-before-write above
+			}
+		}
+		if host, hc, hrs := reserveHelper(s.Fn); !reserved && host != nil && len(hrs) == 1 {
+			if p, isP := unspill(hrs[0].Call.Args[1]).(*ssa.Parameter); isP {
+				if i := paramIndex(p); i >= 0 && i < len(hc.Call.Args) && sameValue(hc.Call.Args[i], call.Call.Args[len(call.Call.Args)-1]) {
+					reserved = true
+				}
 			}
 		}
 		r.Check(toPeer || reserved, rule3, "WriteToContext<-"+k, c.ipos(call), map[bool]string{true: "written to the validated peer address", false: "written to a candidate address after Reserve"}[toPeer], "a datagram is written to an address that is neither the connection's validated peer address nor covered by the amplification reserve: "+c.describeAll(ls))
@@ -420,6 +483,45 @@ func ruleCIDOnSend(c *Ctx, r *Report) {
 			if v == se {
 				good = true
 			}
+			// the flag is set afterwards, by a store that runs only where encrypt is true
+			if !good {
+				guarded, stores := true, 0
+				for _, ref := range *p.al.Referrers() {
+					fa, isFA := ref.(*ssa.FieldAddr)
+					if !isFA {
+						continue
+					}
+					if _, f, _, okF := fieldOfAddr(fa); !okF || f != "ShouldWrapCID" {
+						continue
+					}
+					for _, r2 := range *fa.Referrers() {
+						st, isSt := r2.(*ssa.Store)
+						if !isSt {
+							continue
+						}
+						if k, isC := constBool(st.Val); isC && !k {
+							continue
+						}
+						stores++
+						under := false
+						for d := st.Block(); d != nil; d = d.Idom() {
+							id := d.Idom()
+							if id == nil {
+								break
+							}
+							if iff, isIf := id.Instrs[len(id.Instrs)-1].(*ssa.If); isIf && iff.Cond == se && id.Succs[0] == d && len(d.Preds) == 1 {
+								under = true
+							}
+						}
+						if !under {
+							guarded = false
+						}
+					}
+				}
+				if stores > 0 && guarded {
+					good = true
+				}
+			}
 		}
 		key := short(p.fn) + ":" + strings.TrimPrefix(p.content, "pkg/protocol/")
 		r.Check(good, rule, key+":wrapped-implies-encrypted", c.ipos(p.al), "a packet is CID-wrapped only if it is encrypted", "a packet can be CID-wrapped (content type tls12_cid) while it is not encrypted: during the handshake an alert goes out as a plaintext record of type 25, which every receiver discards - the fatal alert is never read and the peer waits until its own timeout")
@@ -438,4 +540,27 @@ func ruleCIDOnSend(c *Ctx, r *Report) {
 			}
 		}
 	}
+}
+
+// reserveHelper: the unexported function of fn's package, called once from fn, that calls the
+// amplification reserve (nil when there is none or more than one).
+func reserveHelper(fn *ssa.Function) (*ssa.Function, *ssa.Call, []*ssa.Call) {
+	var host *ssa.Function
+	var hc *ssa.Call
+	var hrs []*ssa.Call
+	for _, call := range findCalls(fn, func(string) bool { return true }) {
+		g := call.Call.StaticCallee()
+		if g == nil || g.Pkg != fn.Pkg || len(g.Blocks) == 0 || token.IsExported(g.Name()) {
+			continue
+		}
+		rs := findCalls(g, nameHasSuffix("rrc.Manager).Reserve"))
+		if len(rs) == 0 {
+			continue
+		}
+		if host != nil {
+			return nil, nil, nil
+		}
+		host, hc, hrs = g, call, rs
+	}
+	return host, hc, hrs
 }
